@@ -1209,7 +1209,15 @@ func (r *c04Run) apply(o c04Op) {
 					if pre != nil && c04Mixed(pre) {
 						guard = "violated"
 					}
-					r.l2("case-twins", fmt.Sprintf("listed %s and %s; op=%s; pre-state spelling guard %s", a.full(), b.full(), o.Kind, guard))
+					// do the two differ only in a default host / namespace that one of them spells canonically?
+					// (what DisplayShortest() elides and parsing puts back: finding N3)
+					elided := "no"
+					if a.Model == b.Model && a.Tag == b.Tag && (a.Host != b.Host || a.Ns != b.Ns) &&
+						(a.Host == "registry.ollama.ai" && (a.Ns == "library" || a.Ns == b.Ns) ||
+							b.Host == "registry.ollama.ai" && (b.Ns == "library" || a.Ns == b.Ns)) {
+						elided = "yes"
+					}
+					r.l2("case-twins", fmt.Sprintf("listed %s and %s; op=%s; pre-state spelling guard %s; elided-default=%s", a.full(), b.full(), o.Kind, guard, elided))
 				}
 			}
 		}
@@ -1508,7 +1516,9 @@ func (g *c04Gen) next0(sn *c04Snap) c04Op {
 	if nm == 0 && x >= 45 {
 		x = g.r.Intn(45)
 	}
-	if g.r.Chance(1, 11) {
+	// (not in the litter class: a planted `…-partial-N` file is read by the download code as the part record of
+	// an interrupted pull of that digest — resuming interrupted pulls is C03/C12's model, not this one's)
+	if g.class != 5 && g.r.Chance(1, 11) {
 		return g.pullOp(sn)
 	}
 	// class-specific operations first
@@ -1631,6 +1641,28 @@ func (r *c04Run) end() {
 // the tree contains (the oracle then models exactly that variant).  Each repair has more than one
 // observable facet; facets that disagree are reported as an L2 failure `variant-probe`.
 func c04Probe(t *testing.T, base string, pool *c04Pool, out *zzverif.Out) (fixAlias, fixResolve, fixReturn, fixKeep bool) {
+	defer func() {
+		// N3: create LiBRARy/zz on an empty store, then pull library/zz: where does the manifest land?
+		s := c04NewServer(t, filepath.Join(base, "probe-p"))
+		g0 := pool.ggufs[0]
+		s.exec(c04Op{Kind: "upload", Content: g0, D: c04Digest{Hex: c04Sum(g0)}})
+		s.exec(c04Op{Kind: "create", Name: c04Name{"registry.ollama.ai", "LiBRARy", "zz", "latest"}, Files: []c04Digest{{Hex: c04Sum(g0)}}})
+		s.exec(c04Op{Kind: "pull", Name: c04Name{"registry.ollama.ai", "library", "zz", "latest"},
+			Reg: &c04Reg{Layers: []c04RegLayer{{Media: "M", Content: g0}}, Config: c04RegLayer{Media: "C", Content: c04Config("llama", 1)}}})
+		_, err := os.Stat(s.manifestPath(c04Name{"registry.ollama.ai", "library", "zz", "latest"}))
+		fixPullName := 0
+		if err != nil {
+			fixPullName = 1
+		}
+		b := func(x bool) int {
+			if x {
+				return 1
+			}
+			return 0
+		}
+		out.Add("variant_fixPullName", fixPullName)
+		out.Case(fmt.Sprintf("variant %d %d %d %d %d", b(fixAlias), b(fixResolve), b(fixReturn), b(fixKeep), fixPullName), "ok")
+	}()
 	g0 := pool.ggufs[0]
 	h0 := c04Sum(g0)
 	nm := func(ns, m string) c04Name { return c04Name{"registry.ollama.ai", ns, m, "latest"} }
@@ -1730,7 +1762,6 @@ func c04Probe(t *testing.T, base string, pool *c04Pool, out *zzverif.Out) (fixAl
 	out.Add("variant_fixAlias", b(fixAlias))
 	out.Add("variant_fixResolve", b(fixResolve))
 	out.Add("variant_fixReturn", b(fixReturn))
-	out.Case(fmt.Sprintf("variant %d %d %d %d", b(fixAlias), b(fixResolve), b(fixReturn), b(fixKeep)), "ok")
 	return
 }
 
@@ -1821,6 +1852,9 @@ func TestVerifC04(t *testing.T) {
 			{Kind: "pull", Name: nm("library", "q"), Reg: &c04Reg{Layers: []c04RegLayer{{Media: "M", Content: g1}}, Config: c04RegLayer{Media: "C", Content: c04Config("gemma", 2)}}},
 			{Kind: "pull", Name: nm("library", "p"), Reg: &c04Reg{Layers: []c04RegLayer{{Media: "M", Content: g1}, {Media: "S", Content: pool.syss[0]}}, Config: c04RegLayer{Media: "C", Content: c04Config("gemma", 2), Served: c04Config("corrupted", 9)}}},
 			{Kind: "pull", Name: nm("library", "r")}, {Kind: "delete", Name: nm("library", "q")}, {Kind: "prune"}},
+		// N3: a pull that is resolved to a model under a differently-cased default namespace
+		{up(g0), mk(c04Name{"registry.ollama.ai", "LiBRARy", "foo", "latest"}, false, g0),
+			{Kind: "pull", Name: nm("library", "foo"), Reg: &c04Reg{Layers: []c04RegLayer{{Media: "M", Content: g0}}, Config: c04RegLayer{Media: "C", Content: c04Config("llama", 1)}}}},
 		// leftovers and other non-blob names in blobs/, then the startup sequence
 		{up(g0), mk(nm("library", "a"), false, g0),
 			{Kind: "litter", File: "sha256-" + c04Sum(g1) + "-partial", Content: []byte("x")},
